@@ -59,6 +59,9 @@ def run_tlc(ctx, name, text, workers=4, timeout=1500):
     return r
 
 
+TMP = [""]      # scratch directory handed to the child processes (set by run / replay)
+
+
 def pairs_of(r):
     out = set()
     for x in r.json:
@@ -152,6 +155,7 @@ def child(binary, args, timeout):
     SIGQUIT first (Go prints all goroutines) and is then killed."""
     env = dict(os.environ)
     env["GORACE"] = "exitcode=0 history_size=6"
+    env["VERIF_TMP"] = TMP[0]
     p = subprocess.Popen([binary] + [str(a) for a in args], env=env, stdout=subprocess.PIPE, stderr=subprocess.PIPE, text=True,
                          errors="replace")
     try:
@@ -198,8 +202,7 @@ def analyse(a, rc, so, se, timed_out, need_result=True):
         ev.append(("C09:fatal:%s:%s" % (fatal["msg"], fatal["func"]), "runtime fatal error: " + fatal["msg"], fatal["raw"]))
     dl = cc.parse_deadlock(se)
     if dl:
-        ev.append(("C09:deadlock:%s" % ",".join(dl["blocked"]) if dl["blocked"] else "C09:deadlock:" + dl["why"],
-                   "no progress (%s); blocked: %s" % (dl["why"], dl["blocked"]), dl["raw"]))
+        ev.append(("C09:deadlock:" + dl["stuck"], "no progress (%s); blocked on a lock: %s" % (dl["why"], dl["blocked"]), dl["raw"]))
     elif timed_out:
         ev.append(("C09:deadlock:timeout", "driver did not finish", se[-4000:]))
     pe = cc.parse_panic_exit(se)
@@ -282,6 +285,7 @@ def run(ctx):
     cov["tlc"] = tlccov
     cov["model_race_pairs"] = sorted(predicted)
     binary = vlib.go_build(ctx, "concdrv", race=True)
+    TMP[0] = ctx.scratch
     events = {}        # key -> {"what", "detail", "count", "where": [args]}
 
     def note(key, what, detail, where):
@@ -308,7 +312,11 @@ def run(ctx):
     else:
         results, evs, _ = rep
         for key, what, detail in evs:
-            note(key, what, detail, {"mode": "replay"})
+            w = {"mode": "replay"}
+            mm = re.search(r"schedule (\d+):", what)
+            if mm and int(mm.group(1)) < len(sel):
+                w["schedule"] = sel[int(mm.group(1))]
+            note(key, what, detail, w)
         conform = drift = stale_pred = stale_seen = c05_pred = c05_seen = 0
         drifts = []
         for i, s in enumerate(sel):
@@ -382,7 +390,11 @@ def run(ctx):
             for _ in range(e["count"]):
                 ctx.report(key, e["what"], None)
             continue
-        # not listed: show it again before reporting
+        # not listed: show it again before reporting (a handful of reproduced violations settles the verdict;
+        # further unlisted events are recorded without being re-run)
+        if len(ctx.violations) >= 4:
+            cov.setdefault("unlisted_not_rechecked", []).append(key)
+            continue
         if reproduce(ctx, binary, key, e):
             ctx.report(key, e["what"], {"key": key, "where": e["where"], "detail": e["detail"]})
         else:
@@ -412,7 +424,7 @@ def run(ctx):
         "TLC instances: 2 MAC addresses, 2 IPv4 addresses, 2 frames, one purge round, up to 2 API callers",
         "spoof loops are paced by 6 s / 2-2.8 s timers: within a run they iterate once or twice; Close is exercised at the end of every run",
     ]
-    if unlisted:
+    if unlisted and not ctx.violations:
         raise vlib.InfraError("events not listed as known findings that did not show again on re-runs: %s" % unlisted)
 
 
@@ -458,6 +470,7 @@ def replay(ctx, path):
     obj = json.load(open(path))
     rp = obj["replay"]
     binary = vlib.go_build(ctx, "concdrv", race=True)
+    TMP[0] = ctx.scratch
     if reproduce(ctx, binary, rp["key"], {"where": rp["where"]}):
         print("VIOLATION property=%s replay=%s" % (ctx.pid, path))
         return 1
